@@ -218,6 +218,16 @@ def _np_array(ex, st, args, kw, node):
             for j, v in enumerate(vals):
                 a = z3.Store(a, j, v)
             return ex.alloc_arr(st, (z3.IntVal(len(vals)),), a, elem, "fresh", tag="array")
+        if items and all(isinstance(v, ARef) and ex.arr(st, v).rank == 1 and ex.arr(st, v).elem == "real" for v in items):
+            # a list of equally long 1-D arrays: a 2-D array with one row per list entry (numpy raises on ragged input)
+            ds = [ex.arr(st, v) for v in items]
+            for d in ds[1:]:
+                if not z3.eq(z3.simplify(d.shape[0]), z3.simplify(ds[0].shape[0])):
+                    ex.safe(st, "rows-same-length", d.shape[0] == ds[0].shape[0], node)
+            rows = z3.K(I, ds[0].data)
+            for j, d in enumerate(ds):
+                rows = z3.Store(rows, j, d.data)
+            return ex.alloc_arr(st, (z3.IntVal(len(ds)), ds[0].shape[0]), rows, "real", "fresh", tag="array2")
     if isinstance(x, SeqV) and getattr(x, "as_array", None):
         return x.as_array(ex, st)
     from . import objects
